@@ -45,6 +45,8 @@ pub enum Terminal {
     /// planned[index] never appears (a sequence chunk: GET 404 forever; a volume: LIST empty forever)
     Never { index: usize },
     StopAtGet(usize),
+    /// stop enqueued while the j-th listing of the polling loop (next-volume discovery) is served
+    StopAtList(usize),
     DropAtGet(usize),
     StopBeforeStart,
 }
@@ -80,6 +82,7 @@ pub struct RtScope {
     pub runaway: bool,
     /// downloads seen when the current poll_chunks run began (a scenario may poll twice)
     pub run_gets_base: usize,
+    pub polling_lists: usize,
 }
 
 impl RtScope {
@@ -156,6 +159,17 @@ impl Scope for RtScope {
             let polling_phase = self.gets_total > self.run_gets_base;
             if polling_phase {
                 *self.list_counts.entry(vol).or_insert(0) += 1;
+                self.polling_lists += 1;
+                // injection at this synchronisation point: the poller is inside its next-volume
+                // discovery, i.e. past its stop check and before its next download and send
+                if let Terminal::StopAtList(j) = self.plan.terminal {
+                    if j == self.polling_lists && self.stop_at.is_none() {
+                        if let Some(tx) = &self.stop_tx {
+                            let _ = tx.send(true);
+                        }
+                        self.stop_at = Some((self.log.len(), self.deliveries.len()));
+                    }
+                }
             }
             // plain string-prefix semantics over every object visible right now, in key order
             let mut vols: Vec<usize> = self.chunks.keys().map(|k| k.0).collect();
@@ -282,11 +296,11 @@ pub fn gen_scenario(rng: &mut Rng, index: u64) -> (Plan, BTreeMap<(usize, usize)
         5 => 500,
         _ => rng.urange(1, 999),
     };
-    let visible_at_start = match rng.below(6) {
+    let visible_at_start = match rng.below(7) {
         0 => 1,
         1 => 55,
         2 => 54,
-        3 => rng.urange(50, 55),
+        3 | 6 => rng.urange(50, 55),
         _ => rng.urange(1, 55),
     };
     // wall-clock anchored upload times: in the past (no estimate sleep) or slightly in the future
@@ -322,6 +336,7 @@ pub fn gen_scenario(rng: &mut Rng, index: u64) -> (Plan, BTreeMap<(usize, usize)
     let max_index = planned.len() - 1;
     let terminal = match terminal_kind {
         0 | 1 | 2 | 3 => Terminal::Never { index: (1 + path_len_wanted).min(max_index) },
+        4 if visible_at_start >= 50 => Terminal::StopAtList(1 + rng.usize_below(later_vols[0].1 + 1)),
         4 | 5 | 6 => Terminal::StopAtGet(1 + rng.usize_below(path_len_wanted.min(60) + 2)),
         7 | 8 => Terminal::DropAtGet(1 + rng.usize_below(path_len_wanted.min(60) + 2)),
         _ => Terminal::StopBeforeStart,
@@ -394,7 +409,11 @@ pub fn gen_scenario(rng: &mut Rng, index: u64) -> (Plan, BTreeMap<(usize, usize)
 
     if future_upload {
         let max_t = chunks.values().map(|c| c.upload_s).max().unwrap_or(now_s);
-        let shift = now_s + 30 - max_t;
+        // mostly: the whole history ends ~30 s ahead of this machine's clock; a third of these: the
+        // *first chunk of the newest volume at start* is itself stamped ahead of the clock (the
+        // bucket's clock runs ahead, or polling starts just as the volume begins)
+        let start_first = chunks.get(&(start_vol, 1)).map(|c| c.upload_s).unwrap_or(max_t);
+        let shift = if rng.chance(1, 3) { now_s + 20 + rng.below(40) as i64 - start_first } else { now_s + 30 - max_t };
         for c in chunks.values_mut() {
             c.upload_s += shift;
         }
@@ -519,6 +538,7 @@ pub fn run_scenario(obs: &mut Obs, seed: u64, index: u64) {
         drop_at: None,
         runaway: false,
         run_gets_base: 0,
+        polling_lists: 0,
     }));
     sim.register(&plan.site, scope.clone());
 
@@ -568,7 +588,7 @@ pub fn run_scenario(obs: &mut Obs, seed: u64, index: u64) {
                     "expected_first_delivery_of_second_run": expected, "second_run_deliveries": second, "second_run_outcome": format!("{:?}", outcome2)});
                 match &outcome2 {
                     Outcome::Returned(Ok(()), _) if second == vec![expected] && payload_ok => obs.count("restarts_deliver_the_newest_chunk_present_then", 1),
-                    Outcome::Returned(Err(e), _) if e.contains("connect") => obs.inconclusive("loopback connect failed during a restarted poll"),
+                    Outcome::Returned(Err(e), _) if e.contains("connect") => obs.skipped_environment("loopback connect failed during a restarted poll"),
                     _ => obs.violation(
                         "polling started again on the same site does not deliver exactly the newest chunk present then",
                         format!("expected [{:?}] and Ok, observed {:?} and {:?}", expected, second, outcome2),
@@ -599,6 +619,7 @@ fn term_label(t: &Terminal) -> &'static str {
     match t {
         Terminal::Never { .. } => "never",
         Terminal::StopAtGet(_) => "stop",
+        Terminal::StopAtList(_) => "stop-during-next-volume-discovery",
         Terminal::DropAtGet(_) => "consumer-drop",
         Terminal::StopBeforeStart => "stop-before-start",
     }
@@ -885,7 +906,7 @@ pub fn check_history(obs: &mut Obs, plan: &Plan, h: &RtScope, outcome: &Outcome,
                 return;
             }
         }
-        Terminal::StopAtGet(_) | Terminal::StopBeforeStart => {
+        Terminal::StopAtGet(_) | Terminal::StopAtList(_) | Terminal::StopBeforeStart => {
             let Some((_, before)) = h.stop_at else {
                 // the poller ended before the injection point was reached: only legitimate if it
                 // ran out of planned chunks, which the plans never allow
